@@ -165,6 +165,11 @@ def decide_one(pid, tmpl, tier='quick', seed=0):
     """assemble + verify one template. returns (exit_code, evidence_dict, violation_records)"""
     t0 = time.time()
     gen_dir = os.path.join(VERIF, 'generated')
+    if REPO != '/repo':
+        # scratch source tree (development aid): its own directory, so that it cannot collide with a check of the unchanged tree running at the same time
+        gen_dir = os.path.join(VERIF, 'generated', 'scratch-%d' % os.getpid())
+        import atexit, shutil
+        atexit.register(shutil.rmtree, gen_dir, True)
     os.makedirs(gen_dir, exist_ok=True)
     asm = Assembly(pid, REPO, tier)
     asm.process(tmpl)
